@@ -138,17 +138,43 @@ func projValue(e ast.Expr) any {
 			}
 		}
 	case *ast.SelectorExpr:
-		if x, ok := v.X.(*ast.Ident); ok {
-			return M{"sel": x.Name, "f": v.Sel.Name}
+		if root, path, ok := chain(v); ok && path != "" {
+			return M{"sel": root, "f": path}
 		}
 	case *ast.CallExpr:
-		if s, ok := v.Fun.(*ast.SelectorExpr); ok {
-			if x, ok := s.X.(*ast.Ident); ok {
-				return M{"call": x.Name, "f": s.Sel.Name}
-			}
+		if root, path, ok := chain(v); ok && strings.HasSuffix(path, "()") {
+			return M{"call": root, "f": strings.TrimSuffix(path, "()")}
 		}
 	}
 	return M{"other": fmt.Sprintf("%T", e)}
+}
+
+// chain renders a selector / argument-less call chain rooted at an identifier:
+// pkg.S.In.F -> ("pkg", "S.In.F"), pkg.G().M() -> ("pkg", "G().M()")
+func chain(e ast.Expr) (root, path string, ok bool) {
+	switch v := e.(type) {
+	case *ast.Ident:
+		return v.Name, "", true
+	case *ast.SelectorExpr:
+		r, p, ok := chain(v.X)
+		if !ok {
+			return "", "", false
+		}
+		if p != "" {
+			p += "."
+		}
+		return r, p + v.Sel.Name, true
+	case *ast.CallExpr:
+		if len(v.Args) != 0 {
+			return "", "", false
+		}
+		r, p, ok := chain(v.Fun)
+		if !ok || p == "" {
+			return "", "", false
+		}
+		return r, p + "()", true
+	}
+	return "", "", false
 }
 
 func projFile(f *ast.File) any {
@@ -292,6 +318,19 @@ func (fi *fakeImporter) Import(p string) (*types.Package, error) {
 		tn := types.NewTypeName(token.NoPos, pkg, "T", nil)
 		types.NewNamed(tn, types.NewStruct(nil, nil), nil)
 		sc.Insert(tn)
+		// type Inner struct{ F int }; type R struct{ F int; In Inner }; func (R) M() int; var S R; func G() R
+		inner := types.NewNamed(types.NewTypeName(token.NoPos, pkg, "Inner", nil),
+			types.NewStruct([]*types.Var{types.NewField(token.NoPos, pkg, "F", intT, false)}, nil), nil)
+		sc.Insert(inner.Obj())
+		rT := types.NewNamed(types.NewTypeName(token.NoPos, pkg, "R", nil),
+			types.NewStruct([]*types.Var{types.NewField(token.NoPos, pkg, "F", intT, false), types.NewField(token.NoPos, pkg, "In", inner, false)}, nil), nil)
+		recv := types.NewVar(token.NoPos, pkg, "", rT)
+		rT.AddMethod(types.NewFunc(token.NoPos, pkg, "M", types.NewSignatureType(recv, nil, nil, types.NewTuple(),
+			types.NewTuple(types.NewVar(token.NoPos, pkg, "", intT)), false)))
+		sc.Insert(rT.Obj())
+		sc.Insert(types.NewVar(token.NoPos, pkg, "S", rT))
+		sc.Insert(types.NewFunc(token.NoPos, pkg, "G", types.NewSignatureType(nil, nil, nil, types.NewTuple(),
+			types.NewTuple(types.NewVar(token.NoPos, pkg, "", rT)), false)))
 	}
 	pkg.MarkComplete()
 	fi.pkgs[p] = pkg
